@@ -26,6 +26,31 @@ CLAIMED = {
             'two executions of the same code path in one process; zero-byte outputs are outside the quantifier.',
             'deterministic simulation: seeded scenarios over data/output streams, clock, prompt, crash/ENOSPC + restart, and consumer histories on shared result objects; differential + twin oracles',
             'DESIGN.md section 5 (C10)'),
+    'C05': ('exploration',
+            'Model-based history machine on one mutable FitInfo: keep(selector) steps with all six selector forms interleaved with pickle hops, '
+            'file hops (FitInfoFile write/read) and consumer hops (write_parameters on the file with its own selector), compared after every '
+            'step with ref_select applied to reference rows captured at creation (every per-fit array), plus the composition clause. Synthetic '
+            'results over an alphabet with ties/1e30/inf/NaN and real fits with duplicate SEDs and confidence-1 limits. Seeded sampling (the '
+            'length<=5 sub-space is sampled many times over), not enumeration.',
+            'Trusts numpy argsort order as the ranking; thresholds equal to an attained value are not judged (the property is silent there).',
+            'deterministic simulation: seeded operation histories (keep / pickle hop / file hop / consumer hop) on one shared object against an executable reference model',
+            'DESIGN.md section 5 (C05)'),
+    'C09': ('exploration',
+            'Seeded scenarios on a real fit file: the author rewrites parameters.fits[.gz] in other row orders between steps, analysts call '
+            'write_parameters / write_parameter_ranges / extract_parameters / plot_params_1d/2d with selectors and additional-parameter '
+            'dictionaries through a path, one object or a shared list (consumer after consumer on the same objects). Every listed row, range and '
+            'the table handed to the plots is compared with a by-name lookup in the author\'s reference parameters at printed precision.',
+            'Trusts the fit records as given (C10); printed precision bounds the comparison; savefig is stubbed for the parameter plots.',
+            'deterministic simulation: seeded histories of author rewrites and analyst calls over channels, reference-model lookup oracle',
+            'DESIGN.md section 5 (C09)'),
+    'C18': ('exploration',
+            'Seeded scenarios: real fit files of 1..10 sources routed by filter_output into two writers, chi|cpd thresholds over 8 decades, '
+            'explicit or automatic names (found by directory diff), input as path or list, and compositions (a second split of the good/bad '
+            'file). Outputs are read with the harness pickle reader and compared record by record: union, disjointness, order, membership, '
+            'metadata, input untouched.',
+            'Trusts the input records (C10); thresholds equal to an attained value are not judged.',
+            'deterministic simulation: seeded record streams routed to two simulated output files, channels and compositions; partition oracle',
+            'DESIGN.md section 5 (C18)'),
 }
 
 NOT_APPLICABLE = {
